@@ -256,3 +256,20 @@ package main
 //@   mode permissive
 //@   thread any
 //@   check [C16] ncalls("Lock") == 1 && ncalls("Unlock") == 1
+
+// The D-Bus methods and the periodic trigger are the other entry points of the request
+// paths; they may touch shared state only through newSnapshot / newSnapshotRecording.
+//@ func (s *service) TakeSnapshot
+//@   mode permissive
+//@   thread any
+//@   callees [C16] newSnapshot, Error
+
+//@ func (s *service) TakeTestRecording
+//@   mode permissive
+//@   thread any
+//@   callees [C16] newSnapshotRecording, Error
+
+//@ func snapshotRecordingTriggers
+//@   mode permissive
+//@   thread any
+//@   callees [C16] newSnapshotRecording, Active, NextStart, NextEnd, Until, Sleep, Add
